@@ -14,6 +14,6 @@ meta={"property":ID[:3],"round":(2 if ID.endswith("b") else 1),"seed":int(k),"or
  "needs_to_manifest":needs,
  "demo":{"package_dir":pkg,"test":tn,"file":"demo%s_test.go.txt (rename to *_test.go inside package_dir)"%k},
  "confirmed":"in scratch worktree /tmp/seed/%s via /verif/seedrun.sh: demo passes on the unchanged tree, fails with patch.diff applied; go build ./... and the existing tests of the touched packages and the root package pass with the patch"%ID,
- "detected_by":det}
+ "detected_by":det,"base_commit":("870eb69 (the pinned commit plus the fix: commits up to it)" if ID.endswith("b") else "the /repo HEAD at the time of round 1 (before fix 870eb69)")}
 json.dump(meta,open(dst+"/meta.json","w"),indent=1)
 print("saved",dst)
